@@ -1,8 +1,10 @@
 package harness
 
 import (
+	"encoding/binary"
 	"errors"
 	"fmt"
+	"hash/crc32"
 	"os"
 	"path/filepath"
 	"runtime/debug"
@@ -18,7 +20,7 @@ import (
 // C12 — damaged bytes are detected or harmless, never served as data and
 // never a panic.
 
-const c12Rule = "small databases (3..12 generated ops incl. tombstones, committed batches, sometimes a multi-chunk value, a rotated file, a pending or adopted merge with hint file), closed cleanly; faults on *.data and *.hint files: EVERY single-bit flip of every byte of files <= 2 KiB (sampled bits of larger files), generated multi-byte overwrites, truncation to every length of small files, garbage appended; two injection modes: before Open (recovery/hint-load path) and under a live database (read path); oracle: no panic anywhere; every key reads as its last written value or fails with an error (key-not-found for a live key, an older value, or a value for a deleted key count as wrong data); ListKeys/Fold agree with the reference map unless an error is returned; tolerated extra outcome for damage injected before Open into the NEWEST data file only: the dump equals the model after the leading mutations that lie entirely before the damaged byte (an interrupted append is indistinguishable from it, cf. C03); non-trivial = the fault lands inside the extent of a record; distinct = (database hash, mode, file, fault)"
+const c12Rule = "small databases (3..12 generated ops incl. tombstones, committed batches, sometimes a multi-chunk value, a rotated file, a pending or adopted merge with hint file), closed cleanly; faults on *.data and *.hint files: EVERY single-bit flip of every byte of files <= 2 KiB (sampled bits of larger files), generated multi-byte overwrites, truncation to every length of small files, garbage appended; two injection modes: before Open (recovery/hint-load path) and under a live database (read path; truncations there at record and block boundaries, alternately with poisoned block buffers and with buffers primed with a validly checksummed decoy of the block that is cut); oracle: no panic anywhere; every key reads as its last written value or fails with an error (key-not-found for a live key, an older value, or a value for a deleted key count as wrong data); ListKeys/Fold agree with the reference map unless an error is returned; tolerated extra outcome for damage injected before Open into the NEWEST data file only: the dump equals the model after the leading mutations that lie entirely before the damaged byte (an interrupted append is indistinguishable from it, cf. C03); non-trivial = the fault lands inside the extent of a record; distinct = (database hash, mode, file, fault)"
 
 var c12Profile = &kvh.GenProfile{
 	Weights: map[string]int{
@@ -38,6 +40,48 @@ type c12Fault struct {
 	Bit  int    `json:"bit,omitempty"`
 	Len  int    `json:"len,omitempty"`
 	Seed uint64 `json:"seed,omitempty"`
+	// Decoy (live truncations): before every read the engine's pooled block buffers are left holding the block
+	// the cut lies in, in a version in which every chunk carries a different payload under a VALID checksum - what
+	// an earlier read of a file with the same layout would leave there. A reader that accepts a short read and
+	// decodes the unfilled rest of its buffer then serves the decoy; a correct one reports the short read.
+	Decoy bool `json:"decoy,omitempty"`
+}
+
+// c12DecoyBlock returns block blk of file content in which the payload of every chunk is altered (last byte
+// inverted) and its checksum recomputed. The chunks are walked from the known record extents.
+func c12DecoyBlock(content []byte, spans []recSpan, blk int64) []byte {
+	lo, hi := blk*kvh.BlockSize, (blk+1)*kvh.BlockSize
+	if lo >= int64(len(content)) {
+		return nil
+	}
+	if hi > int64(len(content)) {
+		hi = int64(len(content))
+	}
+	out := append([]byte(nil), content[lo:hi]...)
+	for _, sp := range spans {
+		pos := sp.start
+		for pos < sp.end {
+			if kvh.BlockSize-pos%kvh.BlockSize < kvh.ChunkHeader {
+				pos += kvh.BlockSize - pos%kvh.BlockSize // tail padding
+				continue
+			}
+			if pos+kvh.ChunkHeader > int64(len(content)) {
+				break
+			}
+			l := int64(binary.LittleEndian.Uint16(content[pos+4 : pos+6]))
+			end := pos + kvh.ChunkHeader + l
+			if end > int64(len(content)) {
+				break
+			}
+			if pos >= lo && end <= hi && l > 0 {
+				c := out[pos-lo : end-lo]
+				c[len(c)-1] ^= 0xff
+				binary.LittleEndian.PutUint32(c[:4], crc32.ChecksumIEEE(c[4:]))
+			}
+			pos = end
+		}
+	}
+	return out
 }
 
 type c12Case struct {
@@ -307,21 +351,32 @@ func (d *c12DB) checkFault(f *c12Fault, opt kvh.Opt) (fail *kvh.Fail) {
 			_ = db.Close()
 		}()
 	}()
+	var decoy []byte
 	if f.Mode == "live" {
 		// damage what is on disk NOW (Open may have adopted a pending merge and replaced the file)
 		cur, err := os.ReadFile(path)
 		if err != nil || f.Off >= int64(len(cur)) {
 			return nil // the file is gone or shorter after adoption: nothing to damage
 		}
-		fd, err := os.OpenFile(path, os.O_WRONLY, 0)
-		if err != nil {
-			return &kvh.Fail{Sig: "harness", Msg: err.Error()}
-		}
-		dm := damageBytes(cur, f)
-		_, err = fd.WriteAt(dm[f.Off:], f.Off)
-		fd.Close()
-		if err != nil {
-			return &kvh.Fail{Sig: "harness", Msg: err.Error()}
+		if f.Kind == "truncate" {
+			// the file shrinks under the open database (never through a call that could extend or sync it)
+			if err := os.Truncate(path, f.Off); err != nil {
+				return &kvh.Fail{Sig: "harness", Msg: err.Error()}
+			}
+			if f.Decoy {
+				decoy = c12DecoyBlock(cur, d.recEnds[f.File], f.Off/kvh.BlockSize)
+			}
+		} else {
+			fd, err := os.OpenFile(path, os.O_WRONLY, 0)
+			if err != nil {
+				return &kvh.Fail{Sig: "harness", Msg: err.Error()}
+			}
+			dm := damageBytes(cur, f)
+			_, err = fd.WriteAt(dm[f.Off:], f.Off)
+			fd.Close()
+			if err != nil {
+				return &kvh.Fail{Sig: "harness", Msg: err.Error()}
+			}
 		}
 	}
 	// read everything
@@ -343,6 +398,9 @@ func (d *c12DB) checkFault(f *c12Fault, opt kvh.Opt) (fail *kvh.Fail) {
 		all[k] = true
 	}
 	for k := range all {
+		if decoy != nil {
+			kvh.FillBlockPool(4, decoy)
+		}
 		v, err := db.Get([]byte(k))
 		if err != nil {
 			errs[k] = err
@@ -403,6 +461,9 @@ func (d *c12DB) checkFault(f *c12Fault, opt kvh.Opt) (fail *kvh.Fail) {
 		return nil
 	}
 	var foldBad *kvh.Fail
+	if decoy != nil {
+		kvh.FillBlockPool(4, decoy)
+	}
 	_ = db.Fold(func(k, v []byte) bool {
 		want, live := d.model[string(k)]
 		if !live || (!(len(v) == 0 && len(want) == 0) && string(v) != string(want)) {
@@ -558,6 +619,30 @@ func (d *c12DB) faults(seed uint64, thorough bool) []*c12Fault {
 				}
 				for i, l := range []int{1, 6, 7, 8, 40, kvh.BlockSize} {
 					out = append(out, &c12Fault{Mode: mode, File: rel, Kind: "append", Off: n, Len: l, Seed: seed + uint64(i)})
+				}
+			} else {
+				// the file shrinks under the open database: at every record start and end (+-1), every block boundary
+				// and a stride in between; alternately with poisoned and with decoy-primed block buffers
+				cut := map[int64]bool{0: true, 1: true, 7: true}
+				for _, sp := range d.recEnds[rel] {
+					for _, dl := range []int64{-1, 0, 1, 7, 8} {
+						cut[sp.start+dl] = true
+					}
+					cut[sp.end-1] = true
+					cut[(sp.start+sp.end)/2] = true
+				}
+				for b := int64(kvh.BlockSize); b < n; b += kvh.BlockSize {
+					cut[b-1], cut[b], cut[b+1] = true, true, true
+				}
+				var cuts []int64
+				for l := range cut {
+					if l >= 0 && l < n {
+						cuts = append(cuts, l)
+					}
+				}
+				sort.Slice(cuts, func(i, j int) bool { return cuts[i] < cuts[j] })
+				for i, l := range cuts {
+					out = append(out, &c12Fault{Mode: mode, File: rel, Kind: "truncate", Off: l, Decoy: i%3 != 2})
 				}
 			}
 		}
